@@ -1469,3 +1469,74 @@ func ruleUpdateOffLockAndLoop(c *Ctx, rule6, rule7 string) {
 	}
 	c.floor(rule7, m, 4, "window-update emit sites x receive loops")
 }
+
+// ruleUpdateCallbackGuards (C05.12, C05.13): the window-update callbacks return credit whenever asked.
+func ruleUpdateCallbackGuards(c *Ctx, rule12, rule13 string) {
+	c.rule(rule12, "the window-update callback emits the update unconditionally, except that it may skip it once the stream is half-closed or finished (no more data can arrive): any other condition makes the peer wait for credit that was consumed but never returned")
+	c.rule(rule13, "the window-update callback does not take the stream's write mutex: that mutex is held by SendMsg while it waits for flow-control credit, so a reader returning credit would wait behind its own stream's sender (and the peer, which mirrors this, behind it)")
+	w := c.W
+	a := w.Anchors()
+	lf := w.Locks()
+	// the per-stream write locks: those held at the calls into the sender
+	writeLocks := map[string]bool{}
+	for _, s := range c.senderSendSites() {
+		for _, nt := range []*types.Named{a.CS, a.SS} {
+			for _, l := range perStreamLocks(lf.MustAt(s), nt) {
+				writeLocks[l] = true
+			}
+		}
+	}
+	// marker accessors: functions that only load the half-close / terminal marker
+	isMarkerRead := func(v ssa.Value) bool {
+		v = origin(v)
+		call, ok := v.(*ssa.Call)
+		if !ok {
+			return false
+		}
+		if strings.HasSuffix(calleeName(call), ").Load") && len(call.Call.Args) > 0 {
+			if fr, _, okF := fieldOfAddr(call.Call.Args[0]); okF && (fr == a.SSHalfClosed || fr == a.CSDone) {
+				return true
+			}
+		}
+		if f := helperCallee(call); f != nil {
+			reads := false
+			allInstrsLocal(f, func(in ssa.Instruction) {
+				if ci, isC := in.(*ssa.Call); isC && strings.HasSuffix(calleeName(ci), ").Load") && len(ci.Call.Args) > 0 {
+					if fr, _, okF := fieldOfAddr(ci.Call.Args[0]); okF && (fr == a.SSHalfClosed || fr == a.CSDone) {
+						reads = true
+					}
+				}
+			})
+			return reads
+		}
+		return false
+	}
+	n := 0
+	for _, e := range c.emitSeq() {
+		if !strings.HasSuffix(e.Kind, "_WindowUpdate") || e.Send == nil {
+			continue
+		}
+		n++
+		key := emitKey(w, e)
+		bad := ""
+		for _, f := range factsAt(e.Send) {
+			x, _, y, isCmp := cmpFact(f)
+			if isCmp && ((isNilConst(y) && isMarkerRead(x)) || (isNilConst(x) && isMarkerRead(y))) {
+				continue
+			}
+			if e.Fn != f.Cond.Parent() && f.Cond.Parent() != nil && !w.ownedBy(e.Fn, f.Cond.Parent()) {
+				continue
+			}
+			bad = desc(f.Cond) + fmt.Sprintf(" == %v", f.True)
+		}
+		c.check(bad == "", rule12, key+": credit returned unconditionally", w.At(e.Send), "only guard: stream half-closed / finished", "the window update is additionally conditional on "+bad+": when that condition fails the credit for data the application consumed is never returned and the peer's sender waits at window 0 forever (e.g. a single request larger than the window on a non-client-streaming method)")
+		held := ""
+		for _, l := range lf.MayAt(e.Send).list() {
+			if writeLocks[strings.TrimSuffix(l, ":R")] {
+				held = l
+			}
+		}
+		c.check(held == "", rule13, key+": not under the stream's write mutex", w.At(e.Send), "may-lockset "+lf.MayAt(e.Send).String(), "the window update is sent while "+held+" may be held, the mutex SendMsg holds while it waits for credit: a goroutine that reads (and so returns credit) blocks behind the same stream's parked sender; with both directions busy the two ends wait for each other")
+	}
+	c.floor(rule12, n, 2, "window-update emit sites")
+}
